@@ -8,9 +8,10 @@ package j5client
 // Every property of the request message lands in exactly one place: the path parameters (its JSON name is
 // a ':'-segment of the method's path; such a property is required) or the rest, which is the body when
 // the method has one and the query parameters otherwise.
+// (the properties of a built object schema are non-nil: established by the schema builders, ASSUMED here)
 //@ func (*Method).fillRequest
 //@   requires mm != nil && requestObject != nil
-//@   requires forall i int {requestObject.Properties[i]} :: 0 <= i && i < len(requestObject.Properties) ==> requestObject.Properties[i] != nil
+//@   free requires forall i int {requestObject.Properties[i]} :: 0 <= i && i < len(requestObject.Properties) ==> requestObject.Properties[i] != nil
 //@   loop 1 invariant len(pathProperties) + len(bodyProperties) == $iter
 //@   loop 1 invariant fresh(pathProperties) && fresh(bodyProperties) && sbase(pathProperties) != sbase(bodyProperties)
 //@   loop 1 invariant forall i int {requestObject.Properties[i]} :: 0 <= i && i < len(requestObject.Properties) ==> requestObject.Properties[i] != nil
@@ -50,3 +51,14 @@ package j5client
 //@   ensures complete: result == nil ==> forall i int {pkg.StateEntities[i]} :: 0 <= i && i < len(pkg.StateEntities) ==> pkg.StateEntities[i].KeysSchema != nil && pkg.StateEntities[i].EventSchema != nil && pkg.StateEntities[i].StateSchema != nil
 //@   loop 0 invariant forall i int {pkg.StateEntities[i]} :: 0 <= i && i < len(pkg.StateEntities) ==> pkg.StateEntities[i] != nil
 //@   loop 1 invariant forall i int {pkg.StateEntities[i]} :: 0 <= i && i < $iter ==> pkg.StateEntities[i].KeysSchema != nil && pkg.StateEntities[i].EventSchema != nil && pkg.StateEntities[i].StateSchema != nil
+
+// ---- client methods carry what the source declares (C16) -------------------------------------------------------
+// Name, path and verb are copied; a method has a body exactly when its verb is not GET (the compiler
+// writes body "*" for every other verb: j5convert visitServiceMethodNode#assert.body); the request object
+// handed to the partition is the one looked up under the declared request name.
+//@ func (*sourceBuilder).methodFromSource
+//@   requires src != nil && service != nil && pkg != nil && sb != nil && sb.schemas != nil && sb.schemas.Packages != nil
+//@   assert at fillRequest#0 declared: arg0 == method && method.Service == service && method.GRPCMethodName == src.Name && method.HTTPPath == src.HttpPath && method.HTTPMethod == src.HttpMethod
+//@   |   && method.HasBody == (src.HttpMethod != client_j5pb.HTTPMethod_GET) && method.MethodType == src.MethodType
+//@   assert at fillRequest#0 request: arg1 == requestObject && requestObject != nil
+//@   assert at fillRequest#0 response: (src.ResponseSchema == "HttpBody" ==> method.RawResponse && method.ResponseBody == nil) && (src.ResponseSchema != "HttpBody" ==> !method.RawResponse && method.ResponseBody != nil)
